@@ -66,7 +66,12 @@ reg("C05", "./checks/core", "^TestC05", assumptions=A_CORE)
 reg("C06", "./checks/core", "^TestC06", assumptions=A_CORE[2:] + ["native actions never mutate nested values in place (actions are documented as side-effect free)"])
 reg("C07", "./checks/core", "^TestC07", crash_is_violation=True, fuzz=[("./checks/core", "FuzzC07Total", 120)], assumptions=["a nil *State and Execution literals with nil Events are API misuse, not generated", "panics inside the third-party YAML parser on byte-level garbage are not searched for"])
 reg("C08", "./checks/core", "^TestC08", assumptions=A_CORE[2:] + ["the action model (lib/sm/actlang.go) says which emissions a completed action makes", "after a walk's deadline has passed a later action may complete or be cut short (both accepted)"])
-reg("C09", "./checks/core", "^TestC09", assumptions=["specifications are deterministic by construction", "the state is serialised with core.State's own JSON tags, as sio and mcrew do"])
+reg("C09", None, None)
+CHECKS["C09"]["parts"] = ["C09core", "C09sio"]
+reg("C09core", "./checks/core", "^TestC09", assumptions=["specifications are deterministic by construction", "the state is serialised with core.State's own JSON tags, as sio and mcrew do"])
+CHECKS["C09core"]["subchecks"] = ["plaindata"]
+reg("C09sio", "./checks/sio", "^TestC09", shards=(4, 16), assumptions=["the host-level form of the property: a host (sio.Stdio, as sio/siostd uses it) that is stopped and restarted at message boundaries - also without having seen a message - ends like a host that was never stopped"])
+CHECKS["C09sio"]["subchecks"] = ["stdio"]
 reg("C13", "./checks/core", "^TestC13", fuzz=[("./checks/core", "FuzzC13Repr", 90)], assumptions=["strings in YAML renderings are produced by the YAML library's own marshaller", "native actions cannot be represented as text and are not generated here"])
 reg("C18", "./checks/core", "^TestC18", fuzz=[("./checks/core", "FuzzC18Permanent", 45)], assumptions=A_CORE + ["an action that returns null gets empty bindings; whether permanent bindings survive that is not judged"])
 
